@@ -84,6 +84,9 @@ class PduMachine(HistorySpec):
             ops["set_fault_location"] = ent
             ops["set_responses"] = st.lists(M.st_fsresp_tlv(8, 4), max_size=3)
             ops["set_condition_code"] = st.sampled_from(M.CONDITION_CODES)
+            # any code, also one that does not admit the fault location the PDU currently holds: that intermediate state is outside the
+            # statement (not a valid parameter set) and is not judged - but every valid state reached afterwards is
+            ops["set_condition_code_any"] = st.sampled_from(M.CONDITION_CODES)
         elif k == "metadata":
             ops["set_options"] = st.one_of(st.none(), st.lists(M.st_option_tlv(), min_size=1, max_size=3))
             ops["append_option_in_place_and_set_again"] = M.st_option_tlv()
@@ -102,8 +105,18 @@ class PduMachine(HistorySpec):
     def start(self, p):
         return PduState(p)
 
+    @staticmethod
+    def outside_domain(s) -> bool:
+        return s.kind == "finished" and s.model.get("fault") is not None and s.model["cc"] not in M.FIN_FAULT_CCS
+
     def invariant(self, s):
+        if self.outside_domain(s):
+            return []
         return check_pdu_state(s)
+
+    def enabled(self, s, name):
+        # while the parameter set is not a valid one only setters run (they are what leads back to a valid set)
+        return not (self.outside_domain(s) and name in ("pack", "decode_and_continue", "set_fault_location"))
 
     def step(self, s, name, a):
         from spacepackets.cfdp import defs as cd
@@ -128,6 +141,9 @@ class PduMachine(HistorySpec):
             cc = a if (m["fault"] is None or a in M.FIN_FAULT_CCS) else 4
             o.condition_code = cd.ConditionCode(cc)
             m["cc"] = cc
+        elif name == "set_condition_code_any":
+            o.condition_code = cd.ConditionCode(a)
+            m["cc"] = a
         elif name == "set_options":
             o.options = None if a is None else [M.build_tlv(t) for t in a]
             m["options"] = a
